@@ -602,6 +602,49 @@ func c15OtherBaseTypes(c *lib.Ctx, entries []fit.VerifField) {
 							return
 						}
 					}
+					// the same entry once more as a repeat: the definition lists the field number twice,
+					// first as the profile has it, then with the probed size and base type (writers that
+					// build definitions from a list of sensors do that). Each entry of a definition is
+					// an entry of its own; no reflection access may fail for the second one either.
+					if archpv == 1 || archpv == 2 {
+						conf := ref.FieldDef{Num: e.Num, Size: byte(pbt.Size), Base: pbt.Code}
+						if pf.Array || pbt.Code == 0x07 {
+							conf.Size = byte(pbt.Size * minInt(int(pf.Length), 3))
+							if conf.Size == 0 {
+								conf.Size = byte(pbt.Size)
+							}
+						}
+						plan4 := &ref.Plan{HeaderSize: plan.HeaderSize, Proto: plan.Proto, ProfVer: plan.ProfVer}
+						plan4.Records = append(plan4.Records, plan.Records[:2]...)
+						plan4.Records = append(plan4.Records, ref.Record{IsDef: true, Local: 1, Arch: arch, Global: e.Mesg, Fields: []ref.FieldDef{conf, {Num: e.Num, Size: byte(sz), Base: bt.Code}}})
+						for _, fill := range []byte{0x41, 0xFF, 0x00} {
+							d0, d1 := make([]byte, conf.Size), make([]byte, sz)
+							for i := range d0 {
+								d0[i] = 0x01
+							}
+							for i := range d1 {
+								d1[i] = fill
+							}
+							plan4.Records = append(plan4.Records, ref.Record{Local: 1, Data: [][]byte{d0, d1}})
+						}
+						b4 := plan4.Bytes()
+						c.SetInflight(b4)
+						f4, derr4, out4 := lib.GuardedDecode(b4)
+						c.Eval()
+						if out4.Panicked || out4.Hang {
+							c.Violation(b4, "message %d field %d listed twice in one definition, the second time with base type %s, size %d: Decode panicked: %s\n%s", e.Mesg, e.Num, bt.Name, sz, out4.Panic, out4.Stack)
+							return
+						}
+						c.Count("definitions_repeating_a_field_number", 1)
+						if derr4 == nil && f4 != nil {
+							_, _, eo := lib.GuardedEncode(f4, archOrder(int(arch)))
+							c.Eval()
+							if eo.Panicked {
+								c.Violation(b4, "message %d field %d listed twice in one definition (second: base type %s, size %d): re-encoding the decoded File panicked: %s", e.Mesg, e.Num, bt.Name, sz, eo.Panic)
+								return
+							}
+						}
+					}
 					if derr != nil {
 						c.Count("other_base_type_definitions_rejected", 1)
 						continue
